@@ -1,15 +1,18 @@
 (* C08 — Compiled context is a pure function of thread truth up to the cut point.
    Statements only; proofs are in Proofs/CompileProofs.v.  Every theorem is closed by `exact`.
    `compile P texts l a` is the model of compile_context_bundle_for_run on the full-replay path for the
-   thread `l` and the triggering message `a` (Model/Compile.v); `P` carries the two limits and the
-   checkpoint visibility rule (p_fixed = true: the code as it is now, after the S9 repair). *)
+   thread `l` and the triggering message `a` (Model/Compile.v); `compile_with P texts evs cks from a` is the
+   same computation over an input window `evs`, a checkpoint source `cks` and a cut `from` (what the other
+   read paths feed it).  `P` carries the two limits and the checkpoint visibility rule:
+   p_fixed = false is the code as it is (checkpoints selected by to_seq <= cut alone: S9, open finding),
+   p_fixed = true the rule the property asks for (the checkpoint frame itself at or before the cut). *)
 From RipV Require Import Base.Prelude Model.Compile Proofs.CompileProofs.
 
-(* The bundle is exactly: the selected summary refs, then the most recent <= limit messages with
-   (selected checkpoint's to_seq) < seq <= cut, oldest first, each followed by the reply text of the last
-   run_ended frame at or before the cut that names it; the cut is the frame before the next message
-   after the triggering message, or the head (bundle_spec).  For every thread with increasing seqs,
-   every limit, every level count, both visibility rules. *)
+(* 1. WHAT is compiled.  The bundle is exactly: the selected summary refs, then the most recent <= limit
+   messages with (selected checkpoint's to_seq) < seq <= cut, oldest first, each followed by the reply text
+   of the last run_ended frame at or before the cut that names it; the cut is the frame before the next
+   message after the triggering message, or the head.  Every thread with increasing seqs, every limit,
+   every level count, both visibility rules. *)
 Theorem c08_bundle_meets_spec : forall (P : params) (texts : N -> N) (l : log) (a : N),
   incr l -> option_map snd (compile P texts l a) = bundle_spec P texts l a.
 Proof. exact bundle_meets_spec. Qed.
@@ -27,31 +30,80 @@ Theorem c08_decision_matches_bundle : forall P texts l a d b,
 Proof. exact decision_matches_bundle. Qed.
 Print Assumptions c08_decision_matches_bundle.
 
-(* decision and bundle are a function of the frames at or before the cut alone *)
-Theorem c08_pure_up_to_cut : forall P texts l a c,
-  valid_log l = true -> p_fixed P = true -> cut_point l a = Some c ->
-  compile P texts (upto c l) a = compile P texts l a.
-Proof. exact pure_up_to_cut. Qed.
-Print Assumptions c08_pure_up_to_cut.
+(* 2. Independence of the READ PATH.  Whatever window a read path hands over (a suffix of the mr sidecar or
+   of the full sidecar, cut at `from` or not, complete or holding `limit` messages), with the checkpoint
+   sidecar as checkpoint source, decision and bundle equal the full-replay result. *)
+Theorem c08_paths_agree : forall P texts keep l a from evs,
+  incr l -> wf_refs l = true -> cut_point l a = Some from ->
+  admissible_input keep (p_limit P) l from evs ->
+  Some (compile_with P texts evs (filter is_ckpt l) from a) = compile P texts l a.
+Proof. exact all_paths_agree. Qed.
+Print Assumptions c08_paths_agree.
 
-(* when the triggering message is followed by another message, nothing appended later is noticed *)
-Theorem c08_ignores_after_cut : forall P texts l later a g,
-  valid_log (l ++ later) = true -> p_fixed P = true ->
+(* the tail path's own cut-point computation (messages of the scanned tail + head of the stream) *)
+Theorem c08_tail_cut_agrees : forall keep l pre evs a,
+  incr l -> (forall f, mr_keep f = true -> keep f = true) ->
+  filter keep l = pre ++ evs -> existsb (is_anchor a) evs = true ->
+  tail_cut evs (head_seq l) a = cut_point l a.
+Proof. exact tail_cut_agrees. Qed.
+Print Assumptions c08_tail_cut_agrees.
+
+Example c08_paths_agree_example :
+  valid_log ex_log = true /\ wf_refs ex_log = true /\ cut_point ex_log 58 = Some 60
+  /\ filter mr_keep ex_log = firstn 9 (filter mr_keep ex_log) ++ ex_tail
+  /\ firstn 9 (filter mr_keep ex_log) <> []
+  /\ (16 <= count_msgs_upto 60 ex_tail)%nat
+  /\ tail_cut ex_tail (head_seq ex_log) 58 = Some 60.
+Proof. exact paths_agree_example. Qed.
+
+(* 3. Independence of LATER FRAMES.  Exact dependence, both rules: decision and bundle are a function of the
+   frames at or before the cut and of the visible checkpoint frames. *)
+Theorem c08_depends_on_prefix_and_visible : forall P texts l a c,
+  incr l -> cut_point l a = Some c ->
+  compile P texts l a = Some (compile_with P texts (upto c l) (filter (visible (p_fixed P) c) l) c a).
+Proof. exact depends_on_prefix_and_visible. Qed.
+Print Assumptions c08_depends_on_prefix_and_visible.
+
+(* full statement: when the triggering message is followed by another message, nothing appended later is noticed *)
+Definition c08_ignores_after_cut_full (P : params) : Prop := forall texts l later a g,
+  valid_log (l ++ later) = true ->
   existsb (is_anchor a) l = true ->
   find (fun f => is_msg f && (a <? fseq f)) l = Some g ->
   compile P texts (l ++ later) a = compile P texts l a.
-Proof. exact ignores_after_cut. Qed.
-Print Assumptions c08_ignores_after_cut.
+
+(* proved for the repaired rule ... *)
+Theorem c08_ignores_after_cut_repaired : forall P, p_fixed P = true -> c08_ignores_after_cut_full P.
+Proof. exact (fun P Fx texts l later a g V Ea Fg => ignores_after_cut P texts l later a g V Fx Ea Fg). Qed.
+Print Assumptions c08_ignores_after_cut_repaired.
+
+(* ... and, as a function of the prefix alone *)
+Theorem c08_pure_up_to_cut_repaired : forall P texts l a c,
+  valid_log l = true -> p_fixed P = true -> cut_point l a = Some c ->
+  compile P texts (upto c l) a = compile P texts l a.
+Proof. exact pure_up_to_cut. Qed.
+Print Assumptions c08_pure_up_to_cut_repaired.
+
+(* for the code as it is: partial — the missing hypothesis is that no later frame is a checkpoint with
+   to_seq at or before the cut (messages, runs, replies, side effects, jobs, later-cut checkpoints: not noticed) *)
+Theorem c08_ignores_after_cut_partial : forall P texts l later a g,
+  valid_log (l ++ later) = true ->
+  existsb (is_anchor a) l = true ->
+  find (fun f => is_msg f && (a <? fseq f)) l = Some g ->
+  (forall f, In f later -> visible (p_fixed P) (fseq g - 1) f = false) ->
+  compile P texts (l ++ later) a = compile P texts l a.
+Proof. exact ignores_after_cut_general. Qed.
+Print Assumptions c08_ignores_after_cut_partial.
 
 Example c08_ignores_after_cut_example :
-  valid_log (s9_log ++ s9_later) = true /\ existsb (is_anchor 2) s9_log = true
+  valid_log (s9_log ++ [mkf 4 BMsg; mkf 5 (BCkpt true 4 0); mkf 6 (BRunEnded 0 1)]) = true
+  /\ existsb (is_anchor 2) s9_log = true
   /\ find (fun f => is_msg f && (2 <? fseq f)) s9_log = Some (mkf 3 BMsg)
-  /\ compile fixed_params no_texts (s9_log ++ s9_later) 2 = compile fixed_params no_texts s9_log 2
-  /\ compile fixed_params no_texts s9_log 2 <> None.
-Proof. exact ignores_after_cut_example. Qed.
+  /\ forallb (fun f => negb (visible false (3 - 1) f)) [mkf 4 BMsg; mkf 5 (BCkpt true 4 0); mkf 6 (BRunEnded 0 1)] = true.
+Proof. exact ignores_after_cut_general_example. Qed.
 
-(* S9: the visibility rule of the code before the repair (to_seq <= cut only) lets a checkpoint frame
-   appended after the cut change the bundle — what the correspondence check guards against coming back *)
+(* S9: the full statement is false of the code as it is — a checkpoint frame appended after the cut with
+   to_seq at or before it changes decision and bundle (witness replayed on the implementation:
+   corpus/C08/s9_late_checkpoint.json; open finding `checkpoint_after_cut_selected`) *)
 Theorem c08_late_checkpoint_refuted :
   exists l later a g,
     valid_log (l ++ later) = true /\ existsb (is_anchor a) l = true
